@@ -281,6 +281,92 @@ inductive S where
 		}
 		sb.WriteString("]\n\n")
 	}
+	inputLoop(c, vx, &sb)
 	sb.WriteString("end VaxisModel.Gen.Modes\n")
 	c.Write("Modes.lean", sb.String())
+}
+
+// inputLoop extracts the skeleton of the input goroutine started by openTty: the statements the
+// deferred recover handler runs when the goroutine panics, the statements of the kill-signal arm of
+// its select loop, and the list of select arms. Shapes it does not recognise degrade to a single
+// `.other .tt "unknown: …"` statement (the Lean side then fails `facts_inputLoop`), never to a crash.
+func inputLoop(c *ex.Ctx, vx *ast.File, sb *strings.Builder) {
+	unknown := func(why string) []string { return []string{".other .tt " + ex.LeanStr("unknown: "+why)} }
+	recoverL, signalL := unknown("not found"), unknown("not found")
+	recoverGuard, deferFirst := "unknown", false
+	var arms []string
+	fd := ex.FindFunc(vx, "Vaxis", "openTty")
+	if fd != nil {
+		var lit *ast.FuncLit
+		ast.Inspect(fd.Body, func(n ast.Node) bool {
+			if gs, ok := n.(*ast.GoStmt); ok && lit == nil {
+				if fl, ok := gs.Call.Fun.(*ast.FuncLit); ok {
+					lit = fl
+				}
+			}
+			return lit == nil
+		})
+		if lit != nil {
+			for i, st := range lit.Body.List {
+				switch st := st.(type) {
+				case *ast.DeferStmt:
+					fl, ok := st.Call.Fun.(*ast.FuncLit)
+					if !ok || len(fl.Body.List) != 1 {
+						recoverL = unknown("deferred call is not a one-statement function literal")
+						continue
+					}
+					is, ok := fl.Body.List[0].(*ast.IfStmt)
+					if !ok || is.Init == nil || is.Else != nil || !strings.Contains(c.Src(is.Init), "recover()") {
+						recoverL = unknown("deferred function is not `if err := recover(); err != nil {…}`")
+						continue
+					}
+					recoverGuard = c.Src(is.Init) + "; " + c.Src(is.Cond)
+					deferFirst = i == 0
+					var out []string
+					stmts(c, is.Body.List, ".tt", &out)
+					recoverL = out
+				case *ast.ForStmt:
+					if st.Init != nil || st.Cond != nil || st.Post != nil || len(st.Body.List) != 1 {
+						signalL = unknown("loop is not `for { select {…} }`")
+						continue
+					}
+					sel, ok := st.Body.List[0].(*ast.SelectStmt)
+					if !ok {
+						signalL = unknown("loop body is not a select")
+						continue
+					}
+					signalL = unknown("no `case <-vx.chSigKill` arm")
+					for _, cl := range sel.Body.List {
+						cc := cl.(*ast.CommClause)
+						comm := "default"
+						if cc.Comm != nil {
+							comm = c.Src(cc.Comm)
+						}
+						arms = append(arms, ex.LeanStr(comm))
+						if comm == "<-vx.chSigKill" {
+							var out []string
+							stmts(c, cc.Body, ".tt", &out)
+							signalL = out
+						}
+					}
+				}
+			}
+		}
+	}
+	emit := func(name, doc string, l []string) {
+		fmt.Fprintf(sb, "/-- %s -/\ndef %s : List S := [\n", doc, name)
+		for i, o := range l {
+			sep := ","
+			if i == len(l)-1 {
+				sep = ""
+			}
+			fmt.Fprintf(sb, "  %s%s\n", o, sep)
+		}
+		sb.WriteString("]\n\n")
+	}
+	emit("inputLoopRecover", "openTty, input goroutine: body of the deferred `if err := recover(); err != nil {…}` (the panic path).", recoverL)
+	emit("inputLoopSignalArm", "openTty, input goroutine: body of the `case <-vx.chSigKill:` arm of the select loop (the signal path).", signalL)
+	fmt.Fprintf(sb, "/-- Guard of the deferred handler. -/\ndef inputLoopRecoverGuard : String := %s\n\n", ex.LeanStr(recoverGuard))
+	fmt.Fprintf(sb, "/-- The deferred handler is the first statement of the goroutine (it covers the whole loop). -/\ndef inputLoopDeferFirst : Bool := %v\n\n", deferFirst)
+	fmt.Fprintf(sb, "/-- Communication clauses of the select loop, in source order. -/\ndef inputLoopArms : List String := [%s]\n\n", strings.Join(arms, ", "))
 }
